@@ -18,6 +18,9 @@ pub fn trees_for(ctx: &Ctx, k_quick: usize, k_thorough: usize) -> (Vec<St>, usiz
     // constructor, and wide fan-outs (16, 17, 20, 130 children)
     trees.extend(pair_family());
     trees.extend(wide_family());
+    // nesting far beyond the node bound (chains of 8..70 wrappers) and names of 8..300 bytes
+    trees.extend(deep_family());
+    trees.extend(long_name_family());
     (trees, k)
 }
 
@@ -151,7 +154,7 @@ fn keys_for(path: &str, t: &St) -> Result<([u8; 8], [u8; 8], [u8; 8]), String> {
 
 pub fn run_c16(ctx: &Ctx) {
     let (trees, k) = trees_for(ctx, 4, 5);
-    let long = "x".repeat(300);
+    let long = long_name(300);
     let paths: Vec<&str> = vec!["", "a", "é", "test_path", &long];
     let n = AtomicU64::new(0);
     let sens = AtomicU64::new(0);
@@ -231,8 +234,55 @@ pub fn run_c16(ctx: &Ctx) {
         }
         n.fetch_add(c, Ordering::Relaxed);
     });
-    // typed corpus: genuinely const-evaluated keys
+    // sensitivity at depth and inside long names: changing the innermost leaf of a chain, or one byte
+    // at any position of a long name or path, must change both keys
     let mut m = 0u64;
+    for w in 0..8 {
+        for d in DEEP_DEPTHS {
+            m += 1;
+            let (a, b) = (deep_chain(w, d, St::U8), deep_chain(w, d, St::Bool));
+            match (keys_for("p", &a), keys_for("p", &b)) {
+                (Ok((ac, ao, _)), Ok((bc, bo, _))) => {
+                    if ac == bc || ao == bo {
+                        ctx.violation("key-insensitive-at-depth", format!("changing the leaf under {d} wrappers (constructor {w}) left a key unchanged (compile-time {} / {}, run-time {} / {})", hex(&ac), hex(&bc), hex(&ao), hex(&bo)), (2u64 << 40) | (w as u64) << 8 | d as u64, json!({"schema": a, "mutated": b, "path": "p"}));
+                    }
+                }
+                (Err(e), _) | (_, Err(e)) => ctx.violation("key-panic", e, (2u64 << 40) | d as u64, json!({"schema": a, "path": "p"})),
+            }
+        }
+    }
+    for n in [8usize, 15, 16, 17, 40, 300] {
+        let nm = long_name(n);
+        let base_t = St::Struct("S".into(), Sd::Struct(vec![(nm.clone(), St::U8)]));
+        let (bc, bo, _) = match keys_for(&nm, &base_t) {
+            Ok(k) => k,
+            Err(e) => {
+                ctx.violation("key-panic", e, (3u64 << 40) | n as u64, json!({"schema": base_t, "path": nm}));
+                continue;
+            }
+        };
+        for pos in 0..n {
+            m += 2;
+            let mut bytes = nm.clone().into_bytes();
+            bytes[pos] = if bytes[pos] == b'#' { b'$' } else { b'#' };
+            let changed = String::from_utf8(bytes).unwrap();
+            let t2 = St::Struct("S".into(), Sd::Struct(vec![(changed.clone(), St::U8)]));
+            for (what, res) in [("field name", keys_for(&nm, &t2)), ("path", keys_for(&changed, &base_t))] {
+                match res {
+                    Ok((c, o, r)) => {
+                        if c != o || c != r {
+                            ctx.violation("key-hashers-disagree", format!("{what} of {n} bytes changed at byte {pos}: const {} owned {} reference {}", hex(&c), hex(&o), hex(&r)), (3u64 << 40) | (n as u64) << 12 | pos as u64, json!({"schema": t2, "path": nm}));
+                        } else if c == bc || o == bo {
+                            ctx.violation("key-insensitive", format!("changing byte {pos} of a {n}-byte {what} did not change the key"), (3u64 << 40) | (n as u64) << 12 | pos as u64, json!({"schema": base_t, "name": nm, "changed": changed}));
+                        }
+                    }
+                    Err(e) => ctx.violation("key-panic", e, (3u64 << 40) | n as u64, json!({"schema": t2, "path": nm})),
+                }
+            }
+        }
+    }
+    ctx.class("deep-chain / long-name sensitivity cases", m);
+    // typed corpus: genuinely const-evaluated keys
     for (name, s, ckeys) in crate::checks::schema_typed::corpus_const_keys() {
         let t = from_static(s);
         let owned = OwnedDataModelType::from(s);
@@ -261,7 +311,7 @@ pub fn run_c16(ctx: &Ctx) {
     let mut ev = ctx.ev.lock().unwrap();
     ev.bound("tree_nodes_max", json!(k));
     ev.bound("trees", json!(trees.len()));
-    ev.bound("paths", json!(["", "a", "é", "test_path", "x*300"]));
+    ev.bound("paths", json!(["", "a", "é", "test_path", "300 bytes, neighbouring bytes distinct"]));
     ev.rule = "every schema tree <= k nodes x 5 paths: compile-time hasher (through the cfg hook) == run-time hasher == little-endian FNV-1a-64 of path ++ documented tag/name stream (independent implementation); every single-node mutation of every tree <= 4 nodes (each name replaced by each other name of the set, each primitive kind by each other, adjacent unequal children swapped, Option<->Seq, newtype<->1-tuple): key must change iff the reference streams differ (asserted only then), type-name changes must not change it; typed corpus keys evaluated in const context".into();
     ev.sample(json!({"schema": trees[trees.len() / 3], "path": "test_path"}));
     ev.assumptions = vec!["const fn hasher run at run time through the hook; tied to CTFE on the typed corpus".into(), "'keys differ' asserted only between schemas whose documented streams differ; a 64-bit collision would be a genuine counterexample".into()];
